@@ -1082,3 +1082,53 @@ def match_dereference(chk, c, rule):
                            '`%s` can be reached without `%s` having been tested: AttributeError (NoneType) for text that does not '
                            'match' % (norm(x)[:40], v), '%s:%d' % (fi.module.relpath, x.lineno), key='%s|%s|%s' % (rule, fq, v))
     chk.floor('uses of regular-expression match objects', n, 2)
+
+
+def case_measure(chk, c, rule):
+    """Names are stored and compared upper-cased, and upper-/lower-casing can change the length of a string (one 'ß' becomes
+    'SS').  Contradiction rule: a function that compares `x.upper()` / `x.lower()` does not also measure the *raw* x
+    (`len(x)`, `x[i]`, `x[a:b]`): the positions it computes would be those of another string than the one it compared and
+    that the tree stores.  A measure after `x = x.upper()` is a measure of the normalised name."""
+    import ast
+    from ..cfg import cfg_of, ENTRY
+    from ..src import own_nodes, norm
+    ix = c.index
+    n = 0
+    for fq, fi in sorted(ix.functions.items()):
+        mn = fi.module.name
+        if mn.startswith('v2_') and not mn.endswith('base_datatypes'):
+            continue
+        cased, renorm, measures = {}, {}, {}
+        for x in own_nodes(fi.node):
+            if isinstance(x, ast.Assign) and len(x.targets) == 1 and isinstance(x.targets[0], ast.Name):
+                v = x.targets[0].id
+                if any(isinstance(y, ast.Call) and isinstance(y.func, ast.Attribute) and y.func.attr in ('upper', 'lower', 'casefold') and
+                       isinstance(y.func.value, ast.Name) and y.func.value.id == v for y in ast.walk(x.value)):
+                    renorm.setdefault(v, []).append(x)
+        renorm_calls = {id(y) for xs in renorm.values() for x in xs for y in ast.walk(x.value)}
+        for x in own_nodes(fi.node):
+            if isinstance(x, ast.Call) and isinstance(x.func, ast.Attribute) and x.func.attr in ('upper', 'lower', 'casefold') and \
+                    isinstance(x.func.value, ast.Name) and id(x) not in renorm_calls:
+                cased.setdefault(x.func.value.id, []).append(x)
+            if isinstance(x, ast.Call) and isinstance(x.func, ast.Name) and x.func.id == 'len' and len(x.args) == 1 and \
+                    isinstance(x.args[0], ast.Name):
+                measures.setdefault(x.args[0].id, []).append(x)
+            if isinstance(x, ast.Subscript) and isinstance(x.value, ast.Name) and isinstance(x.ctx, ast.Load):
+                measures.setdefault(x.value.id, []).append(x)
+        for v in sorted(set(cased) | set(renorm)):
+            n += 1
+            ms = measures.get(v, [])
+            if not ms or v not in cased:
+                chk.ob(rule, '%s: `%s` is compared case-normalised and never measured raw' % (fq, v), True, '', fi.loc,
+                       key='%s|%s|%s' % (rule, fq, v))
+                continue
+            g = cfg_of(fi)
+            stops = {g.node_for(a) for a in renorm.get(v, [])}
+            raw = g.reach(ENTRY, labels_ok=lambda s, d, lab, stops=stops: s not in stops) | {ENTRY}
+            bad = [m for m in ms if g.node_for(m) in raw]
+            chk.ob(rule, '%s: `%s` is compared case-normalised and never measured raw' % (fq, v), not bad,
+                   '`%s` measures the raw `%s` while `%s` compares its case-normalised form: for a name whose upper-casing changes its '
+                   'length (e.g. one containing \'ß\') the two disagree, and positions computed from the stored (normalised) name '
+                   'are off (int() of the wrong slice: ValueError)' % (norm(bad[0])[:40] if bad else '', v, norm(cased[v][0])[:40]),
+                   '%s:%d' % (fi.module.relpath, (bad[0] if bad else ms[0]).lineno), key='%s|%s|%s' % (rule, fq, v))
+    chk.floor('functions that case-normalise a name', n, 8)
